@@ -8,7 +8,7 @@ ROOT = "/verif"
 srcs = sys.argv[1:]
 matrix = {}
 mp = os.path.join(ROOT, "seeded", "MATRIX.json")
-if os.path.exists(mp) and not srcs:
+if os.path.exists(mp):
     matrix = json.load(open(mp))
 for s in srcs:
     for f in glob.glob(os.path.join(s, "seeded", "MATRIX.*of*.json")):
